@@ -100,10 +100,17 @@ theorem core_appendMid {p : Prefs} (hp : WsPrefs p) (il : Nat) (o : O) (val : Cp
   unfold appendMid
   split
   · rw [core_cons, stripWs_indentblock hp]
-  · rw [core_cons]
+  · have sp : allWs [32] = true := by decide
+    have h1 : core (if endsSp val && !endsEscSp val then removeLastIfS o else o) = core o := by
+      split
+      · rw [core_removeLastIfS]
+      · rfl
+    generalize (if endsSp val && !endsEscSp val then removeLastIfS o else o) = o1 at h1
+    dsimp only
+    rw [core_cons]
     split
-    · rw [core_removeLastIfS]
-    · rfl
+    · rw [core_cons_ws sp, h1]
+    · rw [h1]
 
 theorem core_appendPost {p : Prefs} (hp : WsPrefs p) (o : O) (val ty : Cps) (f : Fl) :
     core (appendPost p o val ty f) = core o := by
